@@ -35,6 +35,7 @@ EXPLANATION += " (R7, round 9) = C03.R4's pinned canonical layout of a signed en
 EXPLANATION += ' (R8, round 10) = C13.R2: decoding an author-heads report rebuilds it through AuthorHeads::insert, which keeps every author (also at timestamp 0) at its maximum.'
 EXPLANATION += ' (R9, round 11) = the set / get cells of C15.R2: a policy survives its storage round trip, also one with an empty filter list.'
 EXPLANATION += ' (R10, round 12) = C03.R13: the pinned 32-byte encodings of secrets, public keys and ids (to_bytes / as_bytes / from_bytes / From<[u8; 32]>, serde as a transparent newtype).'
+EXPLANATION += " (R11, round 13) = C08.R1's row layout clauses: writer and reader of the records table are each compared with the pinned row layout."
 
 
 def _truth(k, v):
@@ -674,6 +675,13 @@ def r10(ctx):
     keyalg.check(ctx, "C09.R10")
     ctx.floor("C09.R10", 40)
 
+def r11(ctx):
+    """"storage encodings round-trip ... keep their pinned byte encodings": the stored row of an entry is (timestamp, namespace
+    signature, author signature, length, hash) under (namespace, author, key) - the layout every existing database has; writer
+    and reader are each compared with it, not only with each other (C08.R1; C09-13 swapped the signatures in both)"""
+    from . import C08
+    ctx.share("C09.R11", C08.r1, "C08.R1", keep=lambda k: "row-to-entry" in k or "value=" in k or "key=" in k, floor=2)
+
 def run(ctx):
     ctx.run_rule("C09.R1", r1)
     ctx.run_rule("C09.R2", r2)
@@ -685,3 +693,4 @@ def run(ctx):
     ctx.run_rule("C09.R8", r8)
     ctx.run_rule("C09.R9", r9)
     ctx.run_rule("C09.R10", r10)
+    ctx.run_rule("C09.R11", r11)
